@@ -287,13 +287,43 @@ pub fn run(ctx: &Ctx) -> Vec<LayerReport> {
     ];
     let cnt = ctx.tier.pick(5_000, 100_000);
     out.push(explore(&Hist { name: "random" }, proptest::collection::vec(op, 5..=12).prop_map(|ops| Case { ops }), cnt, ctx));
+    // sessions made of phases (optionally switch timestamps, record 1-2 commands, save), with reloads
+    // between and after them: the histories in which saved items written under different timestamp
+    // settings meet in one file
+    let phase = (proptest::bool::weighted(0.5), proptest::collection::vec(proptest::sample::select(COMMANDS.to_vec()), 1..=2), proptest::bool::weighted(0.85), proptest::bool::weighted(0.4), proptest::option::weighted(0.15, 0usize..3)).prop_map(
+        |(toggle, cmds, save, reload, del)| {
+            let mut v = vec![];
+            if toggle {
+                v.push(Op::ToggleTs);
+            }
+            for c in cmds {
+                v.push(Op::Add(c.to_string()));
+            }
+            if let Some(d) = del {
+                v.push(Op::Delete(d));
+            }
+            if save {
+                v.push(Op::Save);
+            }
+            if reload {
+                v.push(Op::NewSession);
+            }
+            v
+        },
+    );
+    let phased = proptest::collection::vec(phase, 2..=4).prop_map(|ps| {
+        let mut ops: Vec<Op> = ps.concat();
+        ops.push(Op::NewSession);
+        Case { ops }
+    });
+    out.push(explore(&Hist { name: "phased" }, phased, ctx.tier.pick(5_000, 100_000), ctx));
     let _ = std::fs::remove_dir_all(format!("/dev/shm/bverif-hist.{}", std::process::id()));
     out
 }
 
 pub fn replay(layer: &str, case: &serde_json::Value) -> Result<(String, Verdict), String> {
     match layer {
-        "exhaustive" | "random" => replay_case(&Hist { name: "random" }, case),
+        "exhaustive" | "random" | "phased" => replay_case(&Hist { name: "random" }, case),
         _ => Err(format!("C20: unknown layer {layer}")),
     }
 }
